@@ -6,9 +6,9 @@ import obl_context
 def run(c):
     import clauses
     c.only_clauses = clauses.OWN["C11"]
-    if A.validate_assembly_concrete(c):
-        ct = A.conv_table_for([])
-        A.obl_reload(c, ct, thorough=(c.tier == "thorough"), budget_s=1200)
+    A.validate_assembly_concrete(c)     # a mismatch makes the run inconclusive; the obligations still run, and what they find is reported only after native confirmation
+    ct = A.conv_table_for([])
+    A.obl_reload(c, ct, thorough=(c.tier == "thorough"), budget_s=1200)
     obl_context.obl_context(c, thorough=(c.tier == "thorough"), budget_s=600)
     c.assume("context layer: a method object made by the constructor for a configuration, or told to refresh with it (update_engine), stands for "
              "'what a new context would have'; that the phonetic refresh really brings the object up to date is the reload obligation")
